@@ -107,6 +107,12 @@ def run(ctx):
             prop_bad.append({"what": "batch parameters / records recovered by the independent decoder differ from the input",
                              "fields": diffs, "got": {k: hdr[k] for k in diffs}, "expected": {k: want[k] for k in diffs},
                              "records_equal": recs == exp_recs, "new_batch": _j(nb), "bytes": out[1].hex()[:400]})
+    # the batch must not depend on the process's local time zone
+    from .. import tzprobe
+    tz_ops = [["wbatch", rc.nb_to_json(nb)] for nb, o in wcases[: (12 if ctx["tier"] == "quick" else 60)] if o[0] == "ok" and len(o[1]) < 4000]
+    tz_diff = tzprobe.differing(tz_ops)
+    for dd in tz_diff[:3]:
+        prop_bad.append({"what": "the batch written depends on the process's local time zone (TZ)", **dd})
     conc_bad, n_conc = concurrent_writes(r, ctx["tier"] == "quick")
     for nb in conc_bad[:2]:
         prop_bad.append({"what": "a batch written while other threads write batches differs from the batch written alone", "new_batch": _j(nb)})
@@ -135,7 +141,8 @@ def run(ctx):
         "rule": "random non-empty record sequences (1-12 records, offsets/timestamps in any order, sub-millisecond timestamps "
                 "in every 5th batch, null/empty/64-128-byte/8k keys, values and headers, boundary header field values) + the "
                 "empty batch; output decoded by an independent decoder written from the format description",
-        "samples": [_j(wcases[0][0])],
+        "samples": [_j(wcases[0][0])], "time_zone_probe": {"operations": len(tz_ops), "zones": tzprobe.ZONES, "differences": len(tz_diff)},
+        "rejected_write_histories": n_hist, "concurrent_writes": n_conc,
         "property_failures_on_implementation": len(prop_bad), "correspondence_disagreements": len(failing),
     }
     return {"violations": viol, "coverage": cov}
